@@ -342,9 +342,18 @@ class Graph:
             return
         i = self.rng.choice(leaves)
         n = self.nodes.pop(i)
-        self.ctx.op('drop', n.name)
+        wr = n.spec.weakref()
+        kind, name, cls, obj = n.kind, n.name, n.cls, n.obj
         del n
         gc.collect()
+        survivor = wr()
+        if survivor is not None:
+            # something outside ``__bases__`` still refers to it (e.g. the constructor arguments a
+            # provides-declaration keeps for pickling): it is still a live dependent, keep it in the graph
+            self.nodes.insert(i, Node(kind, survivor, name, cls, obj))
+            self.ctx.count('drops_refused_still_referenced')
+            return
+        self.ctx.op('drop', name)
         self.ctx.count('dependents_collected')
 
     # -- monitors ------------------------------------------------------------
